@@ -30,7 +30,7 @@ type c16Build struct {
 	Kind  string
 	Base  *store.Store // pre-existing blocks (entry targets)
 	Run   func(ls *ipld.LinkSystem) (ipld.Link, uint64, error)
-	Quick bool // quick builder: API panics on error, so only ordering is judged
+	Quick bool // quick builder: its methods panic on a failed write; a panic or an error both count as reporting it
 }
 
 // installOrderHook makes the store check, at every commit, that every link of
@@ -122,10 +122,7 @@ func checkBuild(c *mon.Case, b c16Build) {
 	c.Count("builds", 1)
 	c.Max("max_writes_per_build", int64(W))
 	c.Sig(fmt.Sprintf("%s|ordering|w%s", b.Kind, sizeClass(W)), W >= 2)
-	if b.Quick {
-		return
-	}
-	// fault enumeration: k-th write-open, k-th commit, k-th Write call
+	// fault enumeration (the quick builder's methods panic on a failed write: there a panic counts as the report): k-th write-open, k-th commit, k-th Write call
 	type plan struct {
 		kind string
 		n    int
@@ -158,7 +155,17 @@ func checkBuild(c *mon.Case, b c16Build) {
 			fs.FailErr = []error{nil, &iofs.PathError{Op: "open", Path: "/blocks/x", Err: syscall.EEXIST}, io.ErrShortWrite, context.Canceled, iofs.ErrExist, store.ErrNotFound{}}[k%6]
 			var fl ipld.Link
 			var ferr error
-			if !c.Guard(fmt.Sprintf("%s with %s #%d failing", b.Name, p.kind, k), func() { fl, _, ferr = b.Run(fs.LinkSystem(false)) }) {
+			if !c.Guard(fmt.Sprintf("%s with %s #%d failing", b.Name, p.kind, k), func() {
+				if b.Quick {
+					defer func() {
+						if pv := recover(); pv != nil {
+							fl, ferr = nil, fmt.Errorf("quick builder panicked: %v", pv)
+							c.Count("quick_builder_panics_as_reports", 1)
+						}
+					}()
+				}
+				fl, _, ferr = b.Run(fs.LinkSystem(false))
+			}) {
 				continue
 			}
 			c.Count("faults_injected", 1)
@@ -254,6 +261,9 @@ func TestC16(t *testing.T) {
 							sz = uint64(s)
 							return nil
 						})
+						if err != nil {
+							return nil, 0, err
+						}
 						return cidLink(root), sz, err
 					}
 				}}
